@@ -414,7 +414,10 @@ def run(chk):
               "conjugation, real part and |.|^2 of complex entries are uninterpreted functions of the entry")
     chk.assume("modified Gram-Schmidt in exact arithmetic: the fold of the verified step over j = 0..idx against an orthonormal Q_0..Q_idx leaves w orthogonal to them, hence the "
                "basis is orthonormal, H is upper Hessenberg with non-negative sub-diagonal and (with at least n steps) its square part has the spectrum of A "
-               "(Golub & Van Loan, Matrix Computations, Alg. 10.5.1 / Saad, Iterative Methods, Prop. 6.5): ASSUMED, not formalised")
+               "(Golub & Van Loan, Matrix Computations, Alg. 10.5.1 / Saad, Iterative Methods, Prop. 6.5): ASSUMED, not formalised" +
+               (" -- except: the relation, the Hessenberg structure and orthonormality are obligations of this check (relation / orth), and 'a square unitary basis "
+                "makes H = Q^H A Q with the characteristic polynomial of A' is PROVED in Lean 4 / Mathlib (lemmas/Theorems.lean: T_arnoldi_full_spectrum)"
+                if alg.theorems_checked(["T_arnoldi_full_spectrum"]) else ""))
     chk.assume("the Householder variant (use_householder=True) and batched start vectors (xnp.vmap) are outside the domain")
     tasks = [("loop", "real"), ("loop", "complex"), ("init", "real"), ("init", "complex"), ("init", "mixed"),
              ("wrapper", "real", "cap<n"), ("wrapper", "real", "cap>=n"), ("wrapper", "complex", "cap<n"), ("wrapper", "complex", "cap>=n"),
